@@ -7,6 +7,10 @@ CHAIN_NOTE = ("Trusted base: the harness wallet/miner/reference models in /verif
               "Sampling, not enumeration: a clean batch is evidence, not proof.")
 
 CHECKS = {
+ "C14": dict(engine="poolsim", cat="exploration", ref="5/C14",
+   text="A real chain plus a real TransactionPool (over a harness BlockChain adapter that forwards identically to servers::PoolToChainAdapter, with ChainToPoolAndNetAdapter::block_accepted mirrored) are driven with seeded interleavings of submissions of every kind (valid, dependent, conflicting, duplicate, aggregated, under-fee, immature/just-mature coinbase, future/next lock height, stem/fluff), blocks mined from the mineable set, blocks with arbitrary pool subsets and conflicting spends, reorgs and capacity shrinks; after every operation the pool's joint validity on the current head, per-entry fee/weight/validity, stempool+txpool validity and the mineable set are checked, and blocks built from the mineable set must be accepted by the chain.",
+   technique="deterministic simulation: seeded interleavings of pool submissions, block connections, reorgs and evictions with invariants checked after every step",
+   note="Trusted base: harness wallet/miner; a block connection (process_block + adapter reconcile calls) is treated as atomic; reorg-cache ageing uses an explicit cutoff."),
  "C19": dict(engine="wiresim", cat="fault_enumeration", ref="5/C19",
    text="The real Codec / write_message / read_message / Handshake run on one end of a loopback socket whose other end and fragmentation are owned by the simulator (fragment i+1 is released when FIONREAD reports fragment i consumed). Message sequences over every type and protocol versions 1/2/3/1000 (header lists of 0..65 headers, archive + streamed attachment, unknown types) are delivered unfragmented, at every single split point, with random multi-splits and as a one-byte dribble and must be read back as the identical sequence; over-limit and wrong-magic frame headers of every type must be refused having consumed exactly 11 bytes and without a large allocation; the handshake must settle on min(version), refuse another genesis and itself.",
    technique="deterministic simulation: lock-stepped loopback transport with enumerated fragmentation and frame-limit faults",
@@ -102,6 +106,8 @@ def main():
              "kind_free_text": "process-death fault enumeration at every labelled durable step, reopen oracle"},
             {"name": "wiresim", "path": "/verif/sim/src/wiresim.rs", "serves_properties": [p for p in claimed if p in ("C11", "C19")],
              "kind_free_text": "real p2p framing layer against a simulated peer over a lock-stepped loopback socket"},
+            {"name": "poolsim", "path": "/verif/sim/src/poolsim.rs", "serves_properties": [p for p in claimed if p == "C14"],
+             "kind_free_text": "real chain + real transaction pool under seeded submission/block/reorg/eviction interleavings"},
             {"name": "chainsim", "path": "/verif/sim/src/chainsim.rs", "serves_properties": [p for p in claimed if CHECKS[p]["engine"] == "chainsim" or p == "C08"],
              "kind_free_text": "deterministic simulation of N real Chain nodes on a simulated network with byzantine inputs"},
         ],
